@@ -606,7 +606,7 @@ func (w *world) await(r *subRec, where string) {
 			}
 		}
 		if late {
-			pruned := !prunedSince.IsZero()
+			pruned := !prunedSince.IsZero() // flagged dead by the publisher (self-prune) or otherwise out of the set
 			if !pruned && w.lw.starved() {
 				// still subscribed: a send may have timed out because this process did not get the CPU
 				w.count("inconclusive_starved")
@@ -629,7 +629,7 @@ func (w *world) await(r *subRec, where string) {
 			}
 			state := "still subscribed: listed in ClientIDs, not flagged dead"
 			if pruned {
-				state = fmt.Sprintf("pruned by the publisher but not closed: IsDead=%v, listed in ClientIDs=%v for %v or more", dead, listed, waitCap)
+				state = fmt.Sprintf("no longer in the subscription set but not closed: IsDead=%v, listed in ClientIDs=%v, for %v or more", dead, listed, waitCap)
 			}
 			resumed := ""
 			if ra := r.resumedAt.Load(); ra != 0 {
@@ -722,7 +722,10 @@ func (w *world) publish(ai, si int, op string, id, k int, tag string) *call {
 	return c
 }
 
-// episode runs one stall episode on the actor's current subscription r:
+// episode runs one stall episode on the actor's current subscription r (an
+// actor that is not subscribed subscribes first; one that has seen its channel
+// closed - pruned earlier - unsubscribes and subscribes again, like a client
+// whose watch stream ended):
 //
 //  1. a sentinel subscriber (own actor id, reading promptly) joins the key, r
 //     is brought up to date (await) and its consumer stops reading
